@@ -34,7 +34,7 @@ def run(chk):
         if len(params) != 3:
             raise AnalysisError('C05.R1', q, 'expected play_card_by_player(self, card, player)')
         cardp, playerp = params[1], params[2]
-        paths = P.summ.paths(cls, 'play_card_by_player', dyn=cls)
+        paths = P.summ.paths(cls, 'play_card_by_player', dyn=cls, allow_truncated=True)
         chk.note(f'{cls}.play_card_by_player: {len(paths)} paths')
         observers = P.players if cls == 'ObservedPlayingPhase' else [P.players[0]]
         for me in observers:
@@ -116,7 +116,7 @@ def run(chk):
     w, q = loc(repo, BASE, 'play_card_by_player', 'C05.R1')
     _, fn = repo.method(BASE, 'play_card_by_player', 'C05.R1')
     params = [a.arg for a in fn.args.args]
-    paths = P.summ.paths(BASE, 'play_card_by_player', dyn=BASE)
+    paths = P.summ.paths(BASE, 'play_card_by_player', dyn=BASE, allow_truncated=True)
     for active in P.players:
         for player in P.players:
             pe = P.evaluator({'card': card, 'player': player, 'active': active, 'leader': active, 'len': 2, 'trump': trump,
